@@ -6,6 +6,8 @@ use syn::visit_mut::{self, VisitMut};
 use syn::{parse_quote, BinOp, Expr, Type, UnOp};
 
 pub struct Rw {
+    /// generic parameters of the impl / fn that are nalgebra dimensions (R1: mapped to the model type `Dm`)
+    pub dims: HashSet<String>,
     pub ints: HashSet<String>,
     pub counts: BTreeMap<&'static str, usize>,
     pub err: Option<String>,
@@ -14,7 +16,7 @@ pub struct Rw {
 
 impl Rw {
     pub fn new(ints: HashSet<String>) -> Self {
-        Rw { ints, counts: BTreeMap::new(), err: None, rename_self: false }
+        Rw { dims: HashSet::new(), ints, counts: BTreeMap::new(), err: None, rename_self: false }
     }
     fn bump(&mut self, k: &'static str) {
         *self.counts.entry(k).or_insert(0) += 1;
@@ -43,6 +45,16 @@ fn strip_known_generics(path: &mut syn::Path, rw: &mut Rw) {
                 seg.arguments = syn::PathArguments::None;
                 rw.bump("R1_strip_generics");
             }
+        }
+        if ["OMatrix", "OVector", "Matrix", "SVector", "SMatrix", "DVector", "DMatrix"].contains(&id.as_str()) {
+            seg.ident = syn::Ident::new("Mx", seg.ident.span());
+            seg.arguments = syn::PathArguments::None;
+            rw.bump("R1_matrix_to_Mx");
+        }
+        if n == 1 && (rw.dims.contains(&id) || id == "U1") && seg.arguments.is_none() {
+            seg.ident = syn::Ident::new("Dm", seg.ident.span());
+            rw.bump("R1_dim_to_Dm");
+            continue;
         }
         if n >= 1 && i == 0 && seg.arguments.is_none() {
             if id == "T" {
@@ -101,6 +113,79 @@ impl VisitMut for Rw {
                             }
                         }
                     }
+                }
+            }
+        }
+        // R4: Option combinators with closures -> their definitional match
+        if let Expr::MethodCall(m) = e {
+            if m.args.len() == 1 {
+                if let Expr::Closure(c) = &m.args[0] {
+                    let strip_as_ref = |x: &Expr| -> Expr {
+                        if let Expr::MethodCall(a) = x {
+                            if a.method == "as_ref" && a.args.is_empty() {
+                                let r = &a.receiver;
+                                return parse_quote!((&#r));
+                            }
+                        }
+                        x.clone()
+                    };
+                    let body = &c.body;
+                    if m.method == "map" {
+                        if let Expr::MethodCall(z) = &*m.receiver {
+                            if z.method == "zip" && z.args.len() == 1 && c.inputs.len() == 1 {
+                                if let syn::Pat::Tuple(tp) = &c.inputs[0] {
+                                    if tp.elems.len() == 2 {
+                                        let (a, b) = (strip_as_ref(&z.receiver), strip_as_ref(&z.args[0]));
+                                        let (p1, p2) = (&tp.elems[0], &tp.elems[1]);
+                                        *e = parse_quote!(match (#a, #b) { (Some(#p1), Some(#p2)) => Some(#body), _ => None });
+                                        self.bump("R4_zip_map_to_match");
+                                    }
+                                }
+                            }
+                        }
+                    }
+                    if let Expr::MethodCall(m) = e {
+                        if m.method == "map" && m.args.len() == 1 {
+                            if let Expr::Closure(c) = &m.args[0] {
+                                if c.inputs.len() == 1 {
+                                    let a = strip_as_ref(&m.receiver);
+                                    let p1 = &c.inputs[0];
+                                    let body = &c.body;
+                                    *e = parse_quote!(match #a { Some(#p1) => Some(#body), None => None });
+                                    self.bump("R4_map_to_match");
+                                }
+                            }
+                        } else if m.method == "unwrap_or_else" && m.args.len() == 1 {
+                            if let Expr::Closure(c) = &m.args[0] {
+                                if c.inputs.is_empty() {
+                                    let a = &m.receiver;
+                                    let body = &c.body;
+                                    *e = parse_quote!(match #a { Some(v__) => v__, None => #body });
+                                    self.bump("R4_unwrap_or_else_to_match");
+                                }
+                            }
+                        }
+                    }
+                }
+            }
+        }
+        // R5: m[i] = e  ->  m.set_lin(i, e)
+        if let Expr::Assign(a) = e {
+            if let Expr::Index(ix) = &*a.left {
+                let (b, i, r) = (&ix.expr, &ix.index, &a.right);
+                *e = parse_quote!(#b.set_lin(#i, #r));
+                self.bump("R5_index_assign");
+            }
+        }
+        // R1: tuple-struct constructor with a PhantomData argument
+        if let Expr::Call(c) = e {
+            let n = c.args.len();
+            if n >= 1 {
+                let last = quote::ToTokens::to_token_stream(&c.args[n - 1]).to_string();
+                if last.ends_with("PhantomData") {
+                    let kept: Vec<Expr> = c.args.iter().take(n - 1).cloned().collect();
+                    c.args = kept.into_iter().collect();
+                    self.bump("R1_drop_phantom");
                 }
             }
         }
